@@ -130,7 +130,12 @@ def find_in_scope(
     interface: bool = False,
     local_only: bool = False,
     var_line_number: int = None,
+    obj_type: int = None,
 ):
+    """Find the object a name is bound to in a scope, its used modules and hosts
+
+    With ``obj_type`` only objects of that kind are considered: a derived type
+    may share its name with a generic interface (its constructor)"""
     from .include import Include
 
     def check_scope(
@@ -146,6 +151,8 @@ def find_in_scope(
                 tmp_var = check_scope(child, var_name_lower, filter_public)
                 if tmp_var is not None:
                     return tmp_var
+            if obj_type is not None and child.get_type() != obj_type:
+                continue
             def_vis = local_scope.def_vis
             if local_scope.name.startswith("#GEN_INT") and local_scope.parent:
                 # Unnamed interface block: accessibility defaults to the host's
@@ -230,12 +237,12 @@ def find_in_scope(
             return None
     # Check parent scopes
     if scope.parent is not None and import_type != ImportTypes.NONE:
-        tmp_var = find_in_scope(scope.parent, var_name, obj_tree)
+        tmp_var = find_in_scope(scope.parent, var_name, obj_tree, obj_type=obj_type)
         if tmp_var is not None:
             return tmp_var
     # Check ancestor scopes
     for ancestor in scope.get_ancestors():
-        tmp_var = find_in_scope(ancestor, var_name, obj_tree)
+        tmp_var = find_in_scope(ancestor, var_name, obj_tree, obj_type=obj_type)
         if tmp_var is not None:
             return tmp_var
     return None
